@@ -144,7 +144,9 @@ class ShimThreading:
 class Sched:
     """One controlled execution."""
 
-    def __init__(self, choose, release_points=True, line_codes=None, max_steps=4000):
+    LOCAL = ("start", "wait", "release")
+
+    def __init__(self, choose, release_points=False, line_codes=None, max_steps=4000):
         self.choose = choose  # f(alternatives:list[int], last:int|None, step) -> idx
         self.release_points = release_points
         self.line_codes = line_codes  # set of code objects traced at line level
@@ -239,8 +241,15 @@ class Sched:
                 self.outcome = "steplimit"
                 break
             self.steps += 1
-            alts, ch = self.choose(en, last, len(self.trace))
-            self.trace.append((tuple(alts), ch))
+            # A pending step that touches no shared state (thread start, return from a
+            # wait whose event is already set, continuation after a release) commutes
+            # with every other step: run it at once, it is not a branching point.
+            loc = [i for i in en if self.tasks[i].pending[0] in self.LOCAL]
+            if loc:
+                ch = loc[0]
+            else:
+                alts, ch = self.choose(en, last, len(self.trace))
+                self.trace.append((tuple(alts), ch))
             t = self.tasks[ch]
             last = ch
             t.sem.release()
